@@ -899,6 +899,54 @@ theorem cmpi_lowering_total (pred : Nat) (hp : pred < 10) (rd t lhs rhs : Reg) :
   have : pred = 0 ∨ pred = 1 ∨ pred = 2 ∨ pred = 3 ∨ pred = 4 ∨ pred = 5 ∨ pred = 6 ∨ pred = 7 ∨ pred = 8 ∨ pred = 9 := by omega
   rcases this with rfl | rfl | rfl | rfl | rfl | rfl | rfl | rfl | rfl | rfl <;> rfl
 
+/-! ## riscv_cf: constant branches (ElideConstantBranches) -/
+
+/-- `const_evaluate` of every conditional branch class decides exactly what the instruction does
+on the 32-bit images of the constants (all six predicates, all i32 payloads, in particular equal
+operands of `bge`/`bgeu`/`beq`) -/
+theorem constEvaluate_sound (op : BOp) (a b : Int) (ha : inS32 a) (hb : inS32 b) :
+    constEvaluate op a b = taken op (imm32 a) (imm32 b) := by
+  cases op <;> simp only [constEvaluate, taken, toSigned32_id a ha, toSigned32_id b hb, slt_imm32 a b ha hb,
+    ult_imm32 a b ha hb, eq_imm32 a b ha hb]
+  · rw [← eq_imm32 a b ha hb]; rfl
+  · by_cases h : a < b <;> simp [h] <;> omega
+  · by_cases h : toUnsigned32 a < toUnsigned32 b <;> simp [h] <;> omega
+
+
+/-- **folding a constant branch never changes where the program goes**: replacing the branch at `pc`
+by what `ElideConstantBranches` emits (`j then` / fall-through) gives the same machine step, whenever
+the constant facts hold in the state -/
+theorem elideConstantBranch_sound (fs : List Fact) (ins new : Instr)
+    (h : elideConstantBranch fs ins = some new) (s : St) (hf : ∀ g ∈ fs, g.Holds s)
+    (prog prog' : Array Instr) (pc : Nat) (h1 : prog[pc]? = some ins) (h2 : prog'[pc]? = some new) :
+    step prog' pc s = step prog pc s := by
+  unfold elideConstantBranch at h
+  split at h
+  · rename_i op a b t
+    split at h
+    · rename_i x y ha hb
+      cases h
+      have ha' := constOf_holds hf ha
+      have hb' := constOf_holds hf hb
+      have ht : taken op (s.get a) (s.get b) = constEvaluate op x y := by
+        rw [ha'.2, hb'.2, constEvaluate_sound op x y ha'.1 hb'.1]
+      by_cases hc : constEvaluate op x y = true
+      · rw [hc] at ht
+        simp [step, h1, h2, hc, ht, Instr.encodable]
+      · have hc' : constEvaluate op x y = false := by simpa using hc
+        rw [hc'] at ht
+        simp [step, h1, h2, hc', ht, Instr.encodable, exec1]
+    · cases h
+  · cases h
+
+/-- a strict comparison in `BgeOp.const_evaluate` (`>` for `>=`) disagrees with the instruction on equal constants -/
+theorem bge_strict_counterexample :
+    taken .bge (imm32 3) (imm32 3) = true ∧ decide ((3 : Int) > 3) = false ∧ constEvaluate .bge 3 3 = true := by decide
+
+example : elideConstantBranch [.const 5 4, .const 6 4] (.br .bge 5 6 9) = some (.j 9) := by decide
+example : elideConstantBranch [.const 5 4, .const 6 4] (.br .blt 5 6 9) = some .nop := by decide
+example : elideConstantBranch [.const 5 4] (.br .blt 5 6 9) = none := by decide
+
 /-! ## counterexamples: what the unfixed code did -/
 
 def st0 : St := { regs := fun _ => 0#32, mem := fun _ => 0#32 }
